@@ -90,12 +90,13 @@ theorem interrupt_no_task_starts_before_its_dependencies_finished {Tid : Type} [
     (i : Nat) (hi : s.startAt t = some i) : ∃ j, s.finishAt d = some j ∧ j < i :=
   ((inv_reachable hr).order t i hi d hd).2
 
-/-- … instantiated for the tasks the finding was about, for every valid project: after a keyboard interrupt the
-    suite teardown task (which tears down the suite-scoped fixtures and calls `teardown_suite`, also when it is
-    skipped) starts only after every test of the suite has finished, and the session teardown task only after
-    every top-level suite has ended. -/
+/-- … instantiated for the tasks the finding was about, for every valid project and every reachable state — in
+    particular after a keyboard interrupt (no hypothesis excludes `s.aborted = true`): the suite teardown task
+    (which tears down the suite-scoped fixtures and calls `teardown_suite`, also when it is skipped) starts only
+    after every test of the suite has finished, and the session teardown task only after every top-level suite
+    has ended. -/
 theorem interrupt_teardowns_wait_for_tests {P : Run.Proj} (hv : TaskGraph.Valid P) (n : Nat)
-    (s : State Run.TaskId) (hr : Reachable (TaskGraph.graphOf P) n s) (_ha : s.aborted = true) :
+    (s : State Run.TaskId) (hr : Reachable (TaskGraph.graphOf P) n s) :
     (∀ sv : Run.SuiteView, sv ∈ Run.allSuites P → Run.hasInit P sv = true →
        ∀ i, s.startAt ⟨.teardown, sv.path⟩ = some i →
        ∀ t : Run.TestSpec, t ∈ sv.spec.tests → ∃ j, s.finishAt ⟨.test, sv.path ++ [t.name]⟩ = some j ∧ j < i) ∧
